@@ -46,12 +46,12 @@ RULE = ("E-states: a state is a sequence of line tokens (the file prefix); every
         "WebVTT with >= 1 cue that has text (the full oracle applies); distinct by file text")
 BOUNDS = {
   "quick": "E-states: all sequences of <= 5 tokens over 9 line tokens from the empty file and after the prefix "
-           "'WEBVTT, blank' (total length <= 7) x 3 renderings; times: hours {-,00,01,99,100,999,1000} x min/sec "
+           "'WEBVTT, blank' (total length <= 7) x 2 renderings (LF; CRLF without final EOL); times: hours {-,00,01,99,100,999,1000} x min/sec "
            "{00,59} x all 1000 ms; cue text: 11 shapes x 9 tag spellings per slot (depth <= 3), 8 ruby shapes, 9 "
            "character references x 9 neighbours x 4 contexts, annotations, 9 time-stamp shapes x 3 cue begins x 2 "
            "spellings x 3 tags; settings: vertical 3 x line 29 x position 17 x size 3 x align 6 = 26622 files of 4 "
-           "cues; lay-out product of 29160 files; writer round trip 1296 documents x 8 configurations",
-  "thorough": "as quick with E-states depth 6 (+ prefix depth 6)",
+           "cues; lay-out product of 29160 files; writer round trip 576 documents x 8 configurations",
+  "thorough": "as quick with E-states depth 6 (+ prefix depth 6), 3 renderings (LF, LF without final EOL, CRLF), tag-token sequences <= 5",
 }
 ASSUMPTIONS = [
   "mc.strictparse.parse_vtt is the grammar of the statement (bound by gates(): hand examples, WebVTT specification examples, the literals of test_vtt_reader.py)",
@@ -611,7 +611,9 @@ def token_line(tok, k):
   raise ValueError(tok)
 
 
-RENDERINGS = [("lf", "\n", True), ("lf-noeol", "\n", False), ("crlf", "\r\n", True)]
+ALL_RENDERINGS = [("lf", "\n", True), ("lf-noeol", "\n", False), ("crlf", "\r\n", True)]
+QUICK_RENDERINGS = [("lf", "\n", True), ("crlf-noeol", "\r\n", False), ("crlf", "\r\n", True)]
+RENDERINGS = ALL_RENDERINGS      # plan() selects: the quick tier runs LF and CRLF-without-final-EOL (CRLF with EOL when the last line is empty)
 
 
 def render(history, eol, final):
@@ -626,9 +628,12 @@ def expand_machine(history, acc):
   history = list(history)
   outs = []
   judged = False
+  last_empty = bool(history) and token_line(history[-1], len(history) - 1) == ""
   for name, eol, final in RENDERINGS:
-    if name != "lf" and (not history or (not final and token_line(history[-1], len(history) - 1) == "")):
-      continue
+    if name != "lf" and (not history or (not final and last_empty)):
+      continue      # an empty last line cannot be written without its line terminator
+    if RENDERINGS is QUICK_RENDERINGS and name == "crlf" and not last_empty:
+      continue      # quick tier: CRLF is exercised by the no-final-EOL rendering unless that one is impossible
     text = render(history, eol, final)
     o, g = check_text(text, acc, {"history": history, "rendering": name}, geometry=False)
     outs.append(o)
@@ -934,7 +939,7 @@ def fam_layout():
 
 RT_REGIONS = [None, "before", "center", "after"]
 RT_TA = [None, "start", "end"]
-RT_PROD = Product([[1, 2, 3], TIMINGS, SPAN_SHAPES, [0, 3, 5], RT_REGIONS, RT_TA, range(8)])
+RT_PROD = Product([[1, 3], TIMINGS, SPAN_SHAPES, [0, 5], RT_REGIONS, RT_TA, range(8)])
 
 
 def _rt_spec(ch):
@@ -1101,6 +1106,8 @@ def _tok_of(cue, word):
 
 
 def plan(tier, seed):
+  global RENDERINGS
+  RENDERINGS = QUICK_RENDERINGS if tier == "quick" else ALL_RENDERINGS
   depth = 5 if tier == "quick" else 6
   fams = [
     StateFamily("M-lines", [[], ["H", "B"]], expand_machine, depth, canon0=lambda h: tuple(h), timeout=30,
